@@ -11,6 +11,7 @@
     msg_identity_attr msg_identity_elem
     adjacent_not_transparent backslash_not_transparent placeholder_text_raises percent_raises
     drop_nested_unbalanced fragments_looked_up_not_extracted
+    default_cfg_include_attrs i18n_directives_sort_first contexted_table
 -/
 import Genshi.Lemmas.I18nTree
 import Genshi.Lemmas.I18nStarts
@@ -94,6 +95,34 @@ theorem default_cfg_excludes_script_style (a : TAttrs) :
     excluded Cfg.default ⟨['h','t','t','p',':','/','/','w','w','w','.','w','3','.','o','r','g','/','1','9','9','9','/','x','h','t','m','l'], ['s','t','y','l','e']⟩ a = true := by
   refine ⟨?_, ?_, ?_, ?_⟩ <;>
     (unfold excluded; simp only [Bool.or_eq_true]; left; decide)
+
+/-- the default `include_attrs` (generated from `Translator.INCLUDE_ATTRS`) are the eight
+    documented attribute names. -/
+theorem default_cfg_include_attrs :
+    Cfg.default.includeAttrs = [['a','b','b','r'], ['a','l','t'], ['l','a','b','e','l'],
+      ['p','l','a','c','e','h','o','l','d','e','r'], ['p','r','o','m','p','t'], ['s','t','a','n','d','b','y'],
+      ['s','u','m','m','a','r','y'], ['t','i','t','l','e']] := by decide
+
+/-- "directive registration ahead of template directives": the seven i18n directives are
+    registered in the order domain, comment, ctxt, msg, choose, singular, plural; msg and
+    choose are the extractable ones, singular and plural the branches; and every
+    `Translator.get_directive_index` is negative, so on a SUB event they sort in front of
+    the template's own directives (whose indices are ≥ 0). -/
+theorem i18n_directives_sort_first :
+    Gen.I18n.directives.map (fun d => (d.2.1, d.2.2.1, d.2.2.2)) =
+      [(['d','o','m','a','i','n'], false, false), (['c','o','m','m','e','n','t'], false, false),
+       (['c','t','x','t'], false, false), (['m','s','g'], true, false), (['c','h','o','o','s','e'], true, false),
+       (['s','i','n','g','u','l','a','r'], false, true), (['p','l','u','r','a','l'], false, true)] ∧
+    (∀ i ∈ Gen.I18n.directiveIndex, i < 0) ∧
+    Gen.I18n.directiveIndex.Pairwise (· < ·) := by
+  refine ⟨by decide, by decide, by decide⟩
+
+/-- the `contexted` table used by `contextify`: plain messages become `pgettext`, plural
+    ones `pngettext` (extraction under `i18n:ctxt` never hits the ValueError branch). -/
+theorem contexted_table :
+    contextedGet none = some pgettextName ∧
+    contextedGet (some ngettextName) = some ['p','n','g','e','t','t','e','x','t'] := by
+  refine ⟨by decide, by decide⟩
 
 /-- the directive list of a SUB event is only permuted by the pass (domain first, context next). -/
 theorem reorder_is_permutation (ds : List Dir) : (reorder ds).dirs.Perm ds := reorder_perm ds
